@@ -72,14 +72,16 @@ def run_scenario(scn: dict, chooser, *, line_mode=False):
     ev: list = []
     viol: list = []
     hstate: dict = {}
-    in_cs = [0]
-    broken_at = [None]  # event index at which a raising holder entered its section
+    from collections import defaultdict
+
+    in_cs = defaultdict(int)  # lock index -> tasks inside its critical section
+    broken_at = defaultdict(lambda: None)  # lock index -> event index at which a raising holder entered its section
     max_queued = [0]
 
-    def snapshot_S(me):
+    def snapshot_S(me, L=0):
         S = []
-        for tid, (st_, opi) in hstate.items():
-            if tid == me:
+        for tid, (st_, opi, l_) in hstate.items():
+            if tid == me or l_ != L:
                 continue
             if st_ == "in_cs":
                 S.append((tid, opi))
@@ -93,21 +95,22 @@ def run_scenario(scn: dict, chooser, *, line_mode=False):
     entered: set = set()
 
     def note_queue():
-        q = sum(1 for tid, (s_, _) in hstate.items() if s_ == "in_acquire" and tid in tasks and tasks[tid].state == "blocked"
-                and tasks[tid].blocked_on not in ("Lock", "RLock"))
-        if q > max_queued[0] and any(s_ == "in_cs" for s_, _ in hstate.values()):
-            max_queued[0] = q
+        for L in {l_ for _, _, l_ in hstate.values()}:
+            q = sum(1 for tid, (s_, _, l_) in hstate.items() if l_ == L and s_ == "in_acquire" and tid in tasks and tasks[tid].state == "blocked"
+                    and tasks[tid].blocked_on not in ("Lock", "RLock"))
+            if q > max_queued[0] and any(s_ == "in_cs" and l_ == L for s_, _, l_ in hstate.values()):
+                max_queued[0] = q
 
-    def on_enter(me, opi, S, what):
+    def on_enter(me, opi, S, what, L=0):
         for a in S:
             if a not in entered and a not in errored:
                 viol.append(("fifo_order", what, f"task {me} op {opi} entered its section before {a}, which was parked in acquire / holding when {me}'s acquire started; events={ev[-12:]}"))
-        if broken_at[0] is not None:
+        if broken_at[L] is not None:
             viol.append(("acquired_after_break", what, f"task {me} op {opi} acquired successfully after a holder's section raised; events={ev[-12:]}"))
         entered.add((me, opi))
-        in_cs[0] += 1
-        if in_cs[0] > 1:
-            viol.append(("mutual_exclusion", what, f"{in_cs[0]} tasks inside a critical section; events={ev[-12:]}"))
+        in_cs[L] += 1
+        if in_cs[L] > 1:
+            viol.append(("mutual_exclusion", what if L == 0 else what + ":second-lock", f"{in_cs[L]} tasks inside the critical section of lock {L}; events={ev[-12:]}"))
 
     errored: set = set()
 
@@ -117,28 +120,32 @@ def run_scenario(scn: dict, chooser, *, line_mode=False):
             sched.yield_point("user")
             note_queue()
 
-    def script(me, ops, lock, counter):
+    def script(me, ops, locks, counter):
         tasks[me] = D.current_task()
         for opi, op in enumerate(ops):
             kind = op[0]
-            S = snapshot_S(me)
-            hstate[me] = ("in_acquire", opi)
+            L = op[2] if len(op) > 2 else 0
+            if kind == "incr":
+                L = "counter"
+            lock = locks[L] if L != "counter" else None
+            S = snapshot_S(me, L)
+            hstate[me] = ("in_acquire", opi, L)
             ev.append(("call", me, opi, kind))
             try:
                 if kind == "with" or kind == "raise":
                     try:
                         with lock:
-                            hstate[me] = ("in_cs", opi)
+                            hstate[me] = ("in_cs", opi, L)
                             ev.append(("enter", me, opi))
-                            on_enter(me, opi, S, "with")
+                            on_enter(me, opi, S, "with", L)
                             try:
                                 if kind == "raise":
-                                    broken_at[0] = len(ev)
+                                    broken_at[L] = len(ev)
                                     section(me, 1)
                                     raise RAISERS[op[1]]("boom")
                                 section(me, op[1])
                             finally:
-                                in_cs[0] -= 1
+                                in_cs[L] -= 1
                                 ev.append(("leave", me, opi))
                     except (Boom, BaseBoom) as e:
                         if kind != "raise" or type(e) is not RAISERS[op[1]]:
@@ -149,13 +156,13 @@ def run_scenario(scn: dict, chooser, *, line_mode=False):
                             viol.append(("holder_exception_swallowed", "with", "the raising holder did not see its exception"))
                 elif kind == "pair":
                     lock.acquire()
-                    hstate[me] = ("in_cs", opi)
+                    hstate[me] = ("in_cs", opi, L)
                     ev.append(("enter", me, opi))
-                    on_enter(me, opi, S, "acquire")
+                    on_enter(me, opi, S, "acquire", L)
                     try:
                         section(me, op[1])
                     finally:
-                        in_cs[0] -= 1
+                        in_cs[L] -= 1
                         ev.append(("leave", me, opi))
                     lock.release()
                 elif kind == "incr":
@@ -165,18 +172,18 @@ def run_scenario(scn: dict, chooser, *, line_mode=False):
             except OrderedLockError as e:
                 errored.add((me, opi))
                 ev.append(("lockerror", me, opi))
-                if broken_at[0] is None:
+                if broken_at[L] is None:
                     viol.append(("spurious_lock_error", kind, f"OrderedLockError without any section having raised: {e}"))
             finally:
-                hstate[me] = ("idle", opi)
+                hstate[me] = ("idle", opi, L)
 
     values: list = []
     tasks: dict = {}
 
     def root():
-        lock = T.OrderedLock()
+        locks = [T.OrderedLock() for _ in range(1 + max([op[2] for s_ in scn["scripts"] for op in s_ if len(op) > 2] or [0]))]
         counter = T.OrderedCounter()
-        fns = [(lambda i=i, ops=ops: script(i, ops, lock, counter)) for i, ops in enumerate(scn["scripts"])]
+        fns = [(lambda i=i, ops=ops: script(i, ops, locks, counter)) for i, ops in enumerate(scn["scripts"])]
         sched.run_parallel(fns, [f"s{i}" for i in range(len(fns))])
 
     # tasks[i] must be known before task i runs snapshot of others: MThread.start() assigns _task synchronously
@@ -200,7 +207,7 @@ def run_scenario(scn: dict, chooser, *, line_mode=False):
     if values and sched.outcome == "finished":
         n_incr = sum(1 for s_ in scn["scripts"] for op in s_ if op[0] == "incr")
         got = sorted(v for _, _, v, _ in values)
-        if broken_at[0] is None:
+        if broken_at["counter"] is None:
             if got != list(range(1, n_incr + 1)) or len(values) != n_incr:
                 viol.append(("counter_values", "increment", f"{n_incr} increments returned {got}"))
         else:
@@ -235,6 +242,9 @@ DFS_CONFIGS = [
     {"scripts": [[["incr"]], [["incr"]]]},
 ]
 BOUNDED_CONFIGS = [
+    # two locks / lock + counter: what a thread went through on one lock must not leak into its next acquire elsewhere
+    {"scripts": [[["raise", "exc", 0], ["with", 0, 1]], [["with", 1, 1]], [["with", 0, 0]]]},
+    {"scripts": [[["raise", "base", 0], ["incr"]], [["incr"], ["incr"]], [["with", 0, 0]]]},
     {"scripts": [[["with", 1]], [["with", 0]], [["with", 0]]]},
     {"scripts": [[["raise", "exc"]], [["with", 0]], [["with", 0]]]},
     {"scripts": [[["raise", "base"]], [["with", 0]], [["pair", 0]]]},
@@ -262,6 +272,13 @@ def scenarios(draw):
             i = draw(st.integers(0, len(scripts) - 1))
             j = draw(st.integers(0, len(scripts[i]) - 1))
             scripts[i][j] = ["raise", draw(st.sampled_from(["exc", "base"]))]
+        if draw(st.integers(0, 2)) == 0:
+            # a second lock and the counter in the same scripts: per-thread state must not leak from one to the other
+            for sc in scripts:
+                for op in sc:
+                    op.append(draw(st.integers(0, 1)))
+                if draw(st.booleans()):
+                    sc.insert(draw(st.integers(0, len(sc))), ["incr"])
         scn = {"scripts": scripts}
     mode = draw(st.sampled_from(["walk", "walk", "pct", "pct", "seq"]))
     sd = draw(st.integers(0, 2**32))
